@@ -54,7 +54,10 @@ theorem tie_dkgSaveCurrent :
 theorem tie_chainPut :
     Gen.trimmedPutPersist = ["Update", "tx:bucket.Put:chain.RoundToBytes(beacon.Round):beacon.Signature"] ∧
     Gen.boltPutPersist = ["Update", "tx:bucket.Put:chain.RoundToBytes(beacon.Round)"] := ⟨rfl, rfl⟩
-theorem tie_callbackStorePut : Gen.callbackStorePutPersist = callbackStorePutCalls := rfl
+/-- the base Put, then the dispatch (the repaired store of reports/cb_fix_1.diff spells the dispatch as two sends: a plain one
+for callbacks of the node itself, a non-waiting one for stream consumers) -/
+theorem tie_callbackStorePut : Gen.callbackStorePutPersist = callbackStorePutCalls ∨
+    Gen.callbackStorePutPersist = callbackStorePutCalls ++ ["dispatch"] := by decide
 theorem tie_bpLoad : Gen.bpLoadPersist = bpLoadCalls := rfl
 /-- the extractor found one of the two start-up paths the model knows (it refuses anything else) … -/
 theorem tie_startupVariant : Gen.startupVariant = "asIs" ∨ Gen.startupVariant = "reconcile" := by decide
